@@ -1,6 +1,6 @@
 ------------------------------ MODULE MC_FLine ------------------------------
-(* Exhaustive exploration of Stream for ParseFLine (kind "fline"), one oracle record per       *)
-(* distinct state.                                                                             *)
+(* Exhaustive exploration of Stream for ParseFLine (kind "fline"); per distinct state one oracle *)
+(* record for the schedule that reached it (Emit) and two for resumed schedules (EmitTwo/Byte). *)
 (* ParseFLine does nothing before 14 bytes are available (parse_fline.go:93), so "all atom     *)
 (* strings up to MaxLen" never leaves flInit for an affordable MaxLen.  The exploration is     *)
 (* therefore steered by HEADS: the text (wire minus the junk prefix) must stay compatible with *)
@@ -26,8 +26,8 @@ aSP == <<SP>>  aHT == <<HT>>  aCR == <<CR>>  aLF == <<LF>>
 aA  == <<97>>                              \* 'a'
 a1  == <<49>>                              \* '1'
 
-\* concatenation of up to 12 pieces.  NOT recursive on purpose: TLC evaluates constant definitions once at
-\* start-up only if they do not depend on RECURSIVE operators (else Heads/Atoms are rebuilt in every state).
+\* concatenation of up to 12 pieces (not RECURSIVE, so that the definitions below are plain constant-level
+\* definitions which TLC evaluates once at start-up -- see also Heads / AtomsSel)
 Pc(ss, k) == IF k <= Len(ss) THEN ss[k] ELSE <<>>
 Cat(ss) == Pc(ss, 1) \o Pc(ss, 2) \o Pc(ss, 3) \o Pc(ss, 4) \o Pc(ss, 5) \o Pc(ss, 6) \o Pc(ss, 7) \o Pc(ss, 8)
            \o Pc(ss, 9) \o Pc(ss, 10) \o Pc(ss, 11) \o Pc(ss, 12)
